@@ -175,7 +175,7 @@ impl Stage for EarlySearch {
             if let Some((period, _)) = c.busy {
                 spawn_pinger(&net, pinger, n2_addr, net.now_ms() + 7, period as u64, 200);
             }
-            let twin = start_node(&net, &NodeCfg { addr: n2_addr, id: mk_id(201, 0), read_only: false, nodes: contacts.clone(), routers: vec![], announce_port: None });
+            let twin = start_node(&net, &NodeCfg { addr: n2_addr, id: mk_id(201, 201), read_only: false, nodes: contacts.clone(), routers: vec![], announce_port: None });
             let start = net.now();
             // learn the bootstrap duration from the twin (same contacts, same latency table)
             let tw = twin.clone();
@@ -209,7 +209,7 @@ impl Stage for EarlySearch {
             if let Some((period, _)) = c.busy {
                 spawn_pinger(&net, pinger, n_addr, net.now_ms() + 7, period as u64, 200);
             }
-            let n = start_node(&net, &NodeCfg { addr: n_addr, id: mk_id(200, 0), read_only: false, nodes: contacts.clone(), routers: vec![], announce_port: None });
+            let n = start_node(&net, &NodeCfg { addr: n_addr, id: mk_id(200, 200), read_only: false, nodes: contacts.clone(), routers: vec![], announce_port: None });
             let n_start = net.now();
             let mut handles = vec![];
             let mut strictly_early = false;
@@ -241,6 +241,13 @@ impl Stage for EarlySearch {
                     _ => return Outcome::violation("early-search-hangs", format!("search issued {at_ms} ms after start (bootstrap takes ~{boot_ms} ms) does not end within 1200 s")),
                 };
                 any_announce |= announce;
+                if got != r_late && std::env::var_os("VERIF_DEBUG").is_some() {
+                    eprintln!("N: got={got:?} at_ms={at_ms} n_start={:?} state={:?} contacts={:?}", n_start, within(Duration::from_secs(5), n.get_state()).await, within(Duration::from_secs(5), n.load_contacts()).await);
+                    for e in net.log().iter().filter(|e| e.from == n_addr || e.to == n_addr) {
+                        let d = match crate::bcodec::KMsg::decode(&e.bytes) { Ok(crate::bcodec::KMsg { body: crate::bcodec::KBody::Resp(r), .. }) => format!("RESP token={} values={:?} nodes={:?}", r.token.is_some(), r.values, r.nodes.iter().map(|n| n.1).collect::<Vec<_>>()), Ok(m) => format!("{:?}", m.body).chars().take(70).collect(), Err(_) => "??".into() };
+                        eprintln!("  {} {:?} {} -> {} {}", e.ms(), e.kind, e.from, e.to, d);
+                    }
+                }
                 if got != r_late {
                     let kind = if got.is_empty() { "early-search-empty" } else { "early-search-differs" };
                     return Outcome::violation(kind, format!("search issued {at_ms} ms after start (bootstrap completes after ~{boot_ms} ms) yielded {got:?}; the same search right after bootstrapped() yields {r_late:?}"));
@@ -383,7 +390,7 @@ impl Stage for ScriptedEarly {
             if let Some((period, _)) = c.busy {
                 spawn_pinger(&net, pinger, n2_addr, 7, period as u64, 60);
             }
-            let twin = start_node(&net, &NodeCfg { addr: n2_addr, id: mk_id(201, 0), read_only: false, nodes: contacts.clone(), routers: routers.clone(), announce_port: None });
+            let twin = start_node(&net, &NodeCfg { addr: n2_addr, id: mk_id(201, 201), read_only: false, nodes: contacts.clone(), routers: routers.clone(), announce_port: None });
             let start = net.now();
             let tw = twin.clone();
             let net3 = net.clone();
@@ -410,7 +417,7 @@ impl Stage for ScriptedEarly {
             if let Some((period, _)) = c.busy {
                 spawn_pinger(&net, pinger, n_addr, net.now_ms() + 7, period as u64, 60);
             }
-            let n = start_node(&net, &NodeCfg { addr: n_addr, id: mk_id(200, 0), read_only: false, nodes: contacts.clone(), routers: routers.clone(), announce_port: None });
+            let n = start_node(&net, &NodeCfg { addr: n_addr, id: mk_id(200, 200), read_only: false, nodes: contacts.clone(), routers: routers.clone(), announce_port: None });
             let n_start = net.now();
             let first_door = *doors.iter().min().unwrap() as u64;
             let mut handles = vec![];
